@@ -2045,6 +2045,173 @@ theorem commute_succeeds_around_around_gap (S : Schema) (htr : compatTransB S = 
     hb hgapB ho1 ho2 hinstB hfr
   exact this
 
+/-- **an attr / remove-node-mark step strictly before a replace-around step with a closed slice: no `commuteGuard`**
+    (valid document and payload, `compatTransB`, the ends of the filled slice pair-aligned in `da`) -/
+theorem commute_succeeds_around_nodeStep_before_closed (S : Schema) (htr : compatTransB S = true) (d da db : Node)
+    (f t gf gt ins : Nat) (sl : Slice) (st : Bool) (pos : Nat) (N : Step)
+    (hN' : (∃ m, N = .removeNodeMark pos m) ∨ (∃ nm v, N = .attr pos nm v))
+    (hv : C01.Valid S d) (hpv : C01.PayloadValid S d (.replaceAround f t gf gt sl ins st))
+    (hn : fnorm d.kids = true) (hsn : fnorm sl.content = true)
+    (hs : AroundShape f t gf gt sl ins) (hcl : sl.openStart = 0 ∧ sl.openEnd = 0) (hsep : pos + 1 < f)
+    (ha : S.apply (.replaceAround f t gf gt sl ins st) d = .ok da) (hb : S.apply N d = .ok db)
+    (hdaal : alignedAt da.kids f = true ∧ alignedAt da.kids (f + sl.toks.length + (gt - gf)) = true) :
+    ∃ dab, N.map (Step.replaceAround f t gf gt sl ins st).getMap = some N ∧
+      (Step.replaceAround f t gf gt sl ins st).map N.getMap = some (.replaceAround f t gf gt sl ins st) ∧
+      S.apply N da = .ok dab ∧ S.apply (.replaceAround f t gf gt sl ins st) db = .ok dab := by
+  have htr := compatTrans_of_B S htr
+  have hN : NodeStepAt pos N := by
+    rcases hN' with ⟨m, rfl⟩ | ⟨nm, v, rfl⟩
+    · exact .inr (.inl ⟨m, rfl⟩)
+    · exact .inr (.inr ⟨nm, v, rfl⟩)
+  have hsp : N.posSpan = some (pos, pos) := by
+    rcases hN with ⟨m, rfl⟩ | ⟨m, rfl⟩ | ⟨n, v, rfl⟩ <;> rfl
+  have hto : N.touch = some (pos, pos + 1) := by
+    rcases hN with ⟨m, rfl⟩ | ⟨m, rfl⟩ | ⟨n, v, rfl⟩ <;> rfl
+  obtain ⟨n, u, hnat, hu, hfrN⟩ := nodeStep_full S d db pos N hN hb
+  obtain ⟨hposlt, hdbT, htok, _, _, _, _⟩ := nodeRepl_toks S d db n u pos _ _ hnat hu hfrN
+  obtain ⟨hsz, hun⟩ := nodeSlice_facts S n u _ _ hu
+  obtain ⟨hre, _⟩ := recreate_remarked S n u _ _ hu
+  have hnt : n.isText = false := by
+    cases n with
+    | text s m => simp [Schema.recreate] at hu
+    | leaf => rfl
+    | elem => rfl
+  have hb2 : S.apply (.replace pos (pos + 1) ⟨[u], 0, if n.isLeaf then 0 else 1⟩ false) d = .ok db := by
+    simpa [Schema.apply] using hfrN
+  obtain ⟨gap, I, hgap, ho1, ho2, hinst, ha2, hio, hin, hisz, hl⟩ :=
+    around_as_replace S d da f t gf gt ins sl st hn hsn hs ha
+  obtain ⟨hwf, hins, hgo⟩ := id hs
+  have hnb := apply_replace_norm S d db pos (pos + 1) _ false hn hun hb2
+  have hna := apply_replace_norm S d da f t I false hn hin ha2
+  obtain ⟨hda, _, _, hleni⟩ := apply_replace_splice S d da f t I false ha2
+  -- the documents as child lists
+  obtain ⟨ty, a, m, K, Ka, rfl, rfl, hrA⟩ := fromReplace_parts S d da f t I
+    (apply_replace_fromReplace S _ _ _ _ _ false ha2)
+  have hvd := hv
+  simp only [C01.Valid, checkNode_elem, Bool.and_eq_true] at hvd
+  simp only [Node.kids] at hn hna hda hl hdaal hnat hposlt htok
+  have hdbeq : db = .elem ty a m (remarkAt K pos u) := by
+    have := fromReplace_node S ty a m K pos n u hv hn hnat hre
+    rw [hfrN] at this
+    split at this
+    · simpa using this
+    · simp at this
+  subst hdbeq
+  simp only [Node.kids] at hnb hdbT
+  -- the node step on `da`
+  have hvda : S.checkNode (.elem ty a m Ka) = true := C01.apply_valid S _ _ _ hv hpv ha
+  have hp : pos < (ftoks K).length := by rw [ftoks_length]; exact hposlt
+  have htok' : (ftoks Ka)[pos]? = some n.headTok := by
+    rw [hda]; unfold splice
+    rw [splice_getElem? _ _ _ _ _ (by omega), if_pos (by omega), List.getElem?_eq_getElem hp]
+    rw [List.getD_eq_getElem?_getD, List.getElem?_eq_getElem hp] at htok
+    simpa using htok
+  obtain ⟨n', hnat', hhd, hnt'⟩ := nodeAtKids_of_head Ka pos n.headTok (fnormKids_of_fnorm hna) htok'
+    (by cases n <;> simp [Node.headTok, Node.isText] at hnt ⊢)
+    (by intro c mm; cases n <;> simp [Node.headTok, Node.isText] at hnt ⊢)
+  obtain ⟨e1, e2, e3, e4⟩ := recreate_congr_head S n n' (stepAttrs N n.attrs) (stepMarks S N n.marks) hhd hnt hnt'
+  have hu' : S.recreate n' (stepAttrs N n'.attrs) (stepMarks S N n'.marks) = .ok u := by
+    rw [e2, e3, e1]; exact hu
+  obtain ⟨hre', _⟩ := recreate_remarked S n' u _ _ hu'
+  have hNda : S.apply N (.elem ty a m Ka) = .ok (.elem ty a m (remarkAt Ka pos u)) := by
+    rcases hN' with ⟨mk, rfl⟩ | ⟨nm, v, rfl⟩
+    · exact removeNodeMark_applies S ty a m Ka pos mk n' u hvda hna hnat' hu'
+    · exact attrStep_applies S ty a m Ka pos nm v n' u hvda hna hnat' hu'
+  have hnat'' : (Node.elem ty a m Ka).nodeAt pos = .ok (some n') := hnat'
+  have hvdab := C01.apply_valid S N _ _ hvda
+    (by rcases hN' with ⟨mk, rfl⟩ | ⟨nm, v, rfl⟩ <;> exact trivial) hNda
+  simp only [C01.Valid, checkNode_elem, Bool.and_eq_true] at hvdab
+  obtain ⟨_, hdabT, _, _, _, _, _⟩ := nodeRepl_toks S (.elem ty a m Ka) _ n' u pos _ _ hnat'' hu'
+    (by rw [← nodeStep_apply_of S (.elem ty a m Ka) n' u pos N hN hnat'' hu']; exact hNda)
+  simp only [Node.kids] at hdabT
+  have hn2 : fnorm (remarkAt Ka pos u) = true := by
+    have hb3 : S.apply (.replace pos (pos + 1) ⟨[u], 0, if n'.isLeaf then 0 else 1⟩ false) (.elem ty a m Ka) =
+        .ok (.elem ty a m (remarkAt Ka pos u)) := by
+      rw [← hNda, nodeStep_apply_of S (.elem ty a m Ka) n' u pos N hN hnat'' hu']; simp [Schema.apply]
+    exact apply_replace_norm S (.elem ty a m Ka) _ pos (pos + 1) _ false hna hun hb3
+  -- the replace of `[from, to)` on `db`, target `dab`
+  have FA := fwdFacts S ty K Ka f t I hrA
+  have hIo1 : I.openStart = 0 := by rw [hio]; exact hcl.1
+  have hIo2 : I.openEnd = 0 := by
+    rw [(insertAt_toks S sl I ins gap.content hwf hins hinst).2.2]; exact hcl.2
+  have hIcl : I = ⟨I.content, 0, 0⟩ := by cases I; simp at hIo1 hIo2; simp [hIo1, hIo2]
+  have hItl : I.toks.length = sl.toks.length + (gt - gf) := by
+    obtain ⟨e2, _⟩ := Slice.toks_length_of_wf_ex sl hwf
+    omega
+  obtain ⟨alKf, alKt⟩ := replaceKids_aligned S ty K f t I Ka hrA
+  obtain ⟨hszb, _⟩ := mapNodeAt_spec K pos n hnat hre
+  obtain ⟨hszab, _⟩ := mapNodeAt_spec Ka pos n' hnat' hre'
+  have hKalen : fsize Ka = f + I.toks.length + (fsize K - t) := FA.size
+  have hsameb : ∀ i, pos < i → (ftoks (remarkAt K pos u))[i]? = (ftoks K)[i]? := by
+    intro i hi
+    rw [hdbT, List.append_assoc, List.getElem?_append_right (by simp; omega)]
+    simp only [List.length_take]
+    rw [Nat.min_eq_left (by omega), List.singleton_append, List.getElem?_cons,
+      if_neg (by omega), List.getElem?_drop]
+    congr 1; omega
+  have hsameab : ∀ i, pos < i → (ftoks (remarkAt Ka pos u))[i]? = (ftoks Ka)[i]? := by
+    intro i hi
+    have hpa : pos < (ftoks Ka).length := by rw [ftoks_length, hKalen]; omega
+    rw [hdabT, List.append_assoc, List.getElem?_append_right (by simp; omega)]
+    simp only [List.length_take]
+    rw [Nat.min_eq_left (by omega), List.singleton_append, List.getElem?_cons,
+      if_neg (by omega), List.getElem?_drop]
+    congr 1; omega
+  have haf : alignedAt (remarkAt K pos u) f = true :=
+    alignedAt_transfer _ K f hnb hn (hsameb _ (by omega)).symm (hsameb _ (by omega)).symm alKf
+  have haf2 : alignedAt (remarkAt Ka pos u) f = true :=
+    alignedAt_transfer _ Ka f hn2 hna (hsameab _ (by omega)).symm (hsameab _ (by omega)).symm hdaal.1
+  have hl' : t ≤ fsize K := by rw [← ftoks_length]; exact hl
+  have R1 := rightRel_remarkAt_before S K pos n hnat hre (fnormKids_of_fnorm hn) t (by omega) (by omega) alKt
+  have R1f := rightRel_remarkAt_before S K pos n hnat hre (fnormKids_of_fnorm hn) f (by omega) (by omega) alKf
+  have R2 : RightRel S Ka (f + I.toks.length) K t :=
+    FA.rrel hn hin (.inl hIo1) (by rw [hItl, ← Nat.add_assoc]; exact hdaal.2)
+  have R3 := rightRel_remarkAt_before S Ka pos n' hnat' hre' (fnormKids_of_fnorm hna) (f + I.toks.length)
+    (by omega) (by omega) (by rw [hItl, ← Nat.add_assoc]; exact hdaal.2)
+  have hR : RightRel S (remarkAt K pos u) t (remarkAt Ka pos u)
+      (f + (Slice.mk I.content 0 0).toks.length + (Slice.mk ([] : List Node) 0 0).toks.length) := by
+    have e0 : (Slice.mk ([] : List Node) 0 0).toks.length = 0 := by rw [Slice.toks_closed]; rfl
+    rw [← hIcl, e0, Nat.add_zero]
+    exact R1.trans htr (R2.symm.trans htr R3.symm)
+  have hdb : depthAt (remarkAt K pos u) f - 0 + 0 = depthAt (remarkAt K pos u) t := by
+    have d1 := R1.depth
+    have d2 := R1f.depth
+    have d3 := FA.depths
+    rw [hIo1, hIo2] at d3
+    omega
+  have htk : ftoks (remarkAt Ka pos u) = (ftoks (remarkAt K pos u)).take f ++
+      ((Slice.mk I.content 0 0).toks ++ (Slice.mk [] 0 0).toks) ++ (ftoks (remarkAt K pos u)).drop t := by
+    have e0 : (Slice.mk ([] : List Node) 0 0).toks = [] := by rw [Slice.toks_closed]; rfl
+    rw [← hIcl, e0, List.append_nil, hdabT, hdbT, hda]
+    unfold splice
+    have h1 := splice_before (ftoks K) [u.headTok] I.toks pos (pos + 1) f t (by omega) (by omega) (by omega)
+      (by omega)
+    have h2 := splice_after (ftoks K) [u.headTok] I.toks pos (pos + 1) f t 1 (by omega) (by omega) (by omega)
+      (by omega) rfl
+    rw [show pos + 1 + (f - (pos + 1)) = f by omega, show pos + 1 + (t - (pos + 1)) = t by omega] at h2
+    rw [h1, h2]
+  have hmerged := replaceKids_merged S ty (remarkAt K pos u) (remarkAt Ka pos u) f t I.content [] 0 0
+    hnb hvdab.1.1 hvdab.2 hn2 hin (by simp [fnorm, fnormKids, chainOk]) (Nat.zero_le _) (Nat.zero_le _)
+    (by omega) (by omega) htk haf haf2 hR (Nat.zero_le _) hdb (lcompat_zero S _ _ _ _)
+  have hfr : S.fromReplace (.elem ty a m (remarkAt K pos u)) f t I = .ok (.elem ty a m (remarkAt Ka pos u)) := by
+    have e : (Slice.mk (fappend I.content []) 0 0) = I := by rw [hIcl]; rfl
+    rw [e] at hmerged
+    simp [Schema.fromReplace, Schema.replace, hmerged, Except.map]
+  refine ⟨_, ?_, ?_, hNda, ?_⟩
+  · exact (rebase_markup_not_dropped_around N pos pos hsp (Nat.le_refl _) f t gf gt sl ins st hgo).1 (by omega)
+  · rw [getMap_of_touch N pos (pos + 1) hto]
+    exact replaceAround_map_empty f t gf gt sl ins st ⟨hgo.1, hgo.2.2⟩
+  · have hdbS : ftoks (Node.elem ty a m (remarkAt K pos u)).kids =
+        splice (ftoks (Node.elem ty a m K).kids) pos (pos + 1) [u.headTok] := by
+      simp only [Node.kids]; rw [hdbT]; rfl
+    have := around_again_shifted S (.elem ty a m K) (.elem ty a m (remarkAt K pos u)) (.elem ty a m Ka) _ f t gf gt ins
+      pos (pos + 1) sl [u.headTok] st gap I hn hnb hgo hsep (by omega) hl hdbS ha hgap ho1 ho2 hinst
+      (by simp only [List.length_singleton]
+          rw [show pos + 1 + (f - (pos + 1)) = f by omega, show pos + 1 + (t - (pos + 1)) = t by omega]; exact hfr)
+    simp only [List.length_singleton] at this
+    rwa [show pos + 1 + (f - (pos + 1)) = f by omega, show pos + 1 + (t - (pos + 1)) = t by omega,
+      show pos + 1 + (gf - (pos + 1)) = gf by omega, show pos + 1 + (gt - (pos + 1)) = gt by omega] at this
+
 /-- **a mark step strictly inside the kept gap, inside an element node of the gap content** (`gapGuard` with the open
     depths of the slice the mark step re-marks; e.g. marking text of a paragraph that is being wrapped or lifted):
     the mark step is the replace of its range by the re-marked slice, so `commute_succeeds_around_gap` applies; the
